@@ -1,15 +1,18 @@
 mod analysis;
+mod driver;
 mod exec;
 mod families;
 mod handles;
 mod hist;
 mod json;
+mod minimise;
 mod oracles;
 mod payload;
 mod prng;
 mod props;
 mod scenario;
 mod sched;
+mod worker;
 
 use multiqueue2_verif_rt as rt;
 
@@ -121,8 +124,71 @@ fn main() {
             println!("ends: {:?}", e.ends);
             println!("violation classes: {:#?}", e.classes);
         }
+        Some("worker") => {
+            // sim worker <prop> <seed> <w> <nw> <n_runs> <budget_s> <digest_file> [indices_file]
+            let g = |i: usize| args.get(i).cloned().unwrap_or_default();
+            let indices = args.get(9).and_then(|p| std::fs::read_to_string(p).ok()).map(|t| t.lines().filter_map(|l| l.trim().parse().ok()).collect::<Vec<u64>>());
+            let cfg = worker::WorkerCfg {
+                prop: g(2),
+                base_seed: g(3).parse().unwrap_or(driver::DEFAULT_SEED),
+                w: g(4).parse().unwrap_or(0),
+                nw: g(5).parse().unwrap_or(1),
+                n_runs: g(6).parse().unwrap_or(0),
+                budget_s: g(7).parse().unwrap_or(30.0),
+                digest_file: args.get(8).cloned(),
+                indices,
+                max_violations: 4,
+            };
+            let j = worker::run_worker(&cfg);
+            println!("{}", j.to_string());
+        }
+        Some("check") => {
+            let prop = args.get(2).cloned().unwrap_or_default();
+            let mut thorough = std::env::var("VERIF_TIER").map(|t| t == "thorough").unwrap_or(false);
+            let mut seed = std::env::var("VERIF_SEED").ok().and_then(|s| s.parse().ok()).unwrap_or(driver::DEFAULT_SEED);
+            let mut workers = std::thread::available_parallelism().map(|n| n.get() as u64).unwrap_or(4).min(16);
+            let mut runs = None;
+            let mut budget = None;
+            let mut i = 3;
+            while i < args.len() {
+                match args[i].as_str() {
+                    "--tier" => {
+                        thorough = args.get(i + 1).map(|t| t == "thorough").unwrap_or(false);
+                        i += 1;
+                    }
+                    "--seed" => {
+                        seed = args.get(i + 1).and_then(|s| s.parse().ok()).unwrap_or(seed);
+                        i += 1;
+                    }
+                    "--workers" => {
+                        workers = args.get(i + 1).and_then(|s| s.parse().ok()).unwrap_or(workers);
+                        i += 1;
+                    }
+                    "--runs" => {
+                        runs = args.get(i + 1).and_then(|s| s.parse().ok());
+                        i += 1;
+                    }
+                    "--budget" => {
+                        budget = args.get(i + 1).and_then(|s| s.parse().ok());
+                        i += 1;
+                    }
+                    "--replay" => {
+                        let p = args.get(i + 1).cloned().unwrap_or_default();
+                        std::process::exit(driver::run_replay(&p));
+                    }
+                    _ => {}
+                }
+                i += 1;
+            }
+            let code = driver::run_check(&driver::CheckArgs { prop, thorough, seed, workers, runs, budget });
+            std::process::exit(code);
+        }
+        Some("replay") => {
+            let p = args.get(2).cloned().unwrap_or_default();
+            std::process::exit(driver::run_replay(&p));
+        }
         _ => {
-            eprintln!("usage: sim explore <prop> <n> [seed] [max_show]");
+            eprintln!("usage: sim check <prop> [--tier quick|thorough] [--seed n] [--replay file] | sim replay <file> | sim explore <prop> <n> [seed] [max_show]");
             std::process::exit(2);
         }
     }
